@@ -1013,6 +1013,10 @@ var vrtIntrinsics = map[string]intrinsicFn{
 	"IteF": func(ex *Exec, _ *ssa.Function, a []Value, _ ssa.Instruction) Value {
 		return ex.iteValue(a[0], a[1], a[2])
 	},
+	"CloseF": func(ex *Exec, _ *ssa.Function, a []Value, _ ssa.Instruction) Value {
+		x, y := a[0].(F), a[1].(F)
+		return ex.normInt(ex.b.And(ex.defTerm(x), ex.defTerm(y), ex.b.Eq(x.T, y.T)))
+	},
 	"IteI": func(ex *Exec, _ *ssa.Function, a []Value, _ ssa.Instruction) Value {
 		return ex.iteValue(a[0], ex.normInt(a[1]), ex.normInt(a[2]))
 	},
